@@ -9,6 +9,9 @@ impl Clone for Tag {
     { Tag(self.0) }
 }
 //@ item src:zvt_builder/src/lib.rs | trait ZvtCommand
+/// `?` applies `From::from` to the error; inside zvt_builder the error type is already ZVTError (identity, N9)
+pub trait IntoVErr { spec fn as_verr(self) -> ZVTError; fn into_verr(self) -> (r: ZVTError) ensures r == self.as_verr(); }
+impl IntoVErr for ZVTError { open spec fn as_verr(self) -> ZVTError { self } fn into_verr(self) -> (r: ZVTError) { self } }
 
 /// `rest` is the input with its first k bytes removed
 pub open spec fn is_rest_after(rest: Seq<u8>, b: Seq<u8>, k: int) -> bool {
@@ -91,7 +94,7 @@ pub proof fn lemma_tagged_inverse<T, L: length::Length, E: encoding::Encoding<T>
 pub proof fn lemma_tagged_frame<T, L: length::Length, E: encoding::Encoding<T>, TE: encoding::Encoding<Tag>>(b: Seq<u8>, tag: Option<Tag>, s: Seq<u8>)
     requires
         L::wf(), L::delimiting(),
-        tag is Some ==> TE::self_delimiting(),
+        tag is Some ==> TE::self_delimiting() && TE::functional(),
         default_spec_deser::<T, L, E, TE>(b, tag) is Some,
     ensures
         default_spec_deser::<T, L, E, TE>(b + s, tag) == default_spec_deser::<T, L, E, TE>(b, tag),
@@ -132,6 +135,8 @@ pub trait ZvtSerializerImpl<
     spec fn deser_pre(tag: Option<Tag>) -> bool;
     /// every successful decode consumes at least one byte
     spec fn deser_progresses(tag: Option<Tag>) -> bool;
+    /// the functional clauses below apply (the value decoder is completely specified)
+    spec fn functional() -> bool;
     /// the decoder succeeds exactly on these inputs
     spec fn deser_defined(b: Seq<u8>, tag: Option<Tag>) -> bool;
     /// what a successful result (value, bytes consumed) must satisfy
@@ -148,11 +153,11 @@ pub trait ZvtSerializerImpl<
         requires Self::deser_pre(tag),
         ensures
     //@ tag st.deser.defined C01 C02
-            r is Ok <==> Self::deser_defined(bytes@, tag),
+            Self::functional() ==> (r is Ok <==> Self::deser_defined(bytes@, tag)),
     //@ tag st.deser.frame C14
             r matches Ok((v, rest)) ==> is_rest_after(rest@, bytes@, bytes@.len() - rest@.len()),
     //@ tag st.deser.ok C01 C14
-            r matches Ok((v, rest)) ==> Self::deser_ok(bytes@, tag, v, bytes@.len() - rest@.len()),
+            Self::functional() ==> (r matches Ok((v, rest)) ==> Self::deser_ok(bytes@, tag, v, bytes@.len() - rest@.len())),
     //@ tag st.deser.progress C02
             Self::deser_progresses(tag) ==> (r matches Ok((v, rest)) ==> rest@.len() < bytes@.len()),
     //@ end
@@ -168,6 +173,7 @@ where
     /// nothing at all (no tag either) when absent; exactly the inner form when present
     open spec fn spec_ser_tagged(&self, tag: Option<Tag>) -> Seq<u8> { match self { None => Seq::<u8>::empty(), Some(d) => d.spec_ser_tagged(tag) } }
     open spec fn deser_pre(tag: Option<Tag>) -> bool { T::deser_pre(tag) }
+    open spec fn functional() -> bool { T::functional() }
     open spec fn deser_progresses(tag: Option<Tag>) -> bool { tag is Some && T::deser_progresses(tag) }
     /// tagged: fails exactly when the inner type fails; positional: never fails
     open spec fn deser_defined(b: Seq<u8>, tag: Option<Tag>) -> bool { match tag { Some(_) => T::deser_defined(b, tag), None => true } }
@@ -177,9 +183,9 @@ where
             None => if T::deser_defined(b, None) { v matches Some(i) && T::deser_ok(b, None, i, k) } else { v is None && k == 0 },
         }
     }
-    //@ fn src:zvt_builder/src/lib.rs | impl ZvtSerializerImpl<L,E,TE> for Option<T> | serialize_tagged | props=C03,C01
+    //@ fn src:zvt_builder/src/lib.rs | impl ZvtSerializerImpl<L,E,TE> for Option<T> | serialize_tagged | props=C03,C01 $M
     //@ end
-    //@ fn src:zvt_builder/src/lib.rs | impl ZvtSerializerImpl<L,E,TE> for Option<T> | deserialize_tagged | props=C02,C14
+    //@ fn src:zvt_builder/src/lib.rs | impl ZvtSerializerImpl<L,E,TE> for Option<T> | deserialize_tagged | props=C02,C14 $M
     //@ end
 }
 
@@ -199,13 +205,14 @@ where
     /// termination needs every round to consume a tag: elements must be tagged
     open spec fn deser_pre(tag: Option<Tag>) -> bool { T::deser_pre(tag) && T::deser_progresses(tag) }
     open spec fn deser_progresses(tag: Option<Tag>) -> bool { false }
+    open spec fn functional() -> bool { true }
     open spec fn deser_defined(b: Seq<u8>, tag: Option<Tag>) -> bool { true }
     /// element content is not specified at this level (see DESIGN.md: Vec combinator, partial)
     open spec fn deser_ok(b: Seq<u8>, tag: Option<Tag>, v: Self, k: int) -> bool { true }
     // iterator adapters (flat_map/collect): trusted shell
     //@ fn src:zvt_builder/src/lib.rs | impl ZvtSerializerImpl<L,E,TE> for Vec<T> | serialize_tagged | ext props=C03,C01
     //@ end
-    //@ fn src:zvt_builder/src/lib.rs | impl ZvtSerializerImpl<L,E,TE> for Vec<T> | deserialize_tagged | all-loops props=C02,C14
+    //@ fn src:zvt_builder/src/lib.rs | impl ZvtSerializerImpl<L,E,TE> for Vec<T> | deserialize_tagged | all-loops props=C02,C14 $M
     //@ loop 0
             invariant
                 T::deser_pre(tag), T::deser_progresses(tag),
@@ -228,6 +235,7 @@ where
     /// the complete wire form of the packet
     spec fn zs_spec(&self) -> Seq<u8>;
     spec fn zd_pre() -> bool;
+    spec fn zd_functional() -> bool;
     spec fn zd_defined(b: Seq<u8>) -> bool;
     spec fn zd_ok(b: Seq<u8>, v: Self, k: int) -> bool;
     //@ fn src:zvt_builder/src/lib.rs | trait ZvtSerializer | zvt_serialize | sig dropbody props=C03
@@ -239,11 +247,11 @@ where
         requires Self::zd_pre(),
         ensures
     //@ tag zd.defined C01 C02
-            r is Ok <==> Self::zd_defined(bytes@),
+            Self::zd_functional() ==> (r is Ok <==> Self::zd_defined(bytes@)),
     //@ tag zd.frame C14
             r matches Ok((v, rest)) ==> is_rest_after(rest@, bytes@, bytes@.len() - rest@.len()),
     //@ tag zd.ok C01 C14 C15
-            r matches Ok((v, rest)) ==> Self::zd_ok(bytes@, v, bytes@.len() - rest@.len()),
+            Self::zd_functional() ==> (r matches Ok((v, rest)) ==> Self::zd_ok(bytes@, v, bytes@.len() - rest@.len())),
     //@ end
 }
 
@@ -261,6 +269,9 @@ where
     open spec fn zs_spec(&self) -> Seq<u8> {
         <Self as ZvtSerializerImpl<length::Adpu, encoding::Default, encoding::BigEndian>>::spec_ser_tagged(self, Some(ctrl_tag(Self::CLASS, Self::INSTR)))
     }
+    open spec fn zd_functional() -> bool {
+        <Self as ZvtSerializerImpl<length::Adpu, encoding::Default, encoding::BigEndian>>::functional()
+    }
     open spec fn zd_pre() -> bool {
         <Self as ZvtSerializerImpl<length::Adpu, encoding::Default, encoding::BigEndian>>::deser_pre(Some(ctrl_tag(Self::CLASS, Self::INSTR)))
     }
@@ -270,9 +281,9 @@ where
     open spec fn zd_ok(b: Seq<u8>, v: Self, k: int) -> bool {
         <Self as ZvtSerializerImpl<length::Adpu, encoding::Default, encoding::BigEndian>>::deser_ok(b, Some(ctrl_tag(Self::CLASS, Self::INSTR)), v, k)
     }
-    //@ fn src:zvt_builder/src/lib.rs | impl ZvtSerializer for T | zvt_serialize | props=C03
+    //@ fn src:zvt_builder/src/lib.rs | impl ZvtSerializer for T | zvt_serialize | props=C03 $M
     //@ end
-    //@ fn src:zvt_builder/src/lib.rs | impl ZvtSerializer for T | zvt_deserialize | props=C02,C14
+    //@ fn src:zvt_builder/src/lib.rs | impl ZvtSerializer for T | zvt_deserialize | props=C02,C14 $M
     //@ end
 }
 
